@@ -109,6 +109,14 @@ def build_cases(thorough):
         tmpls = hostile.CONDITION_TEMPLATES if thorough else [hostile.CONDITION_TEMPLATES[(i + k) % len(hostile.CONDITION_TEMPLATES)] for k in range(5)]
         for t in tmpls:
             add(f"const:{e}:{hostile.CONDITION_TEMPLATES.index(t)}", t.replace("{E}", e), r.choice(OPTION_VECTORS[:4]), kind="const")
+    # the constants that cost most (the first eight: huge powers, shifts, repetitions) in every template, also in the quick tier: which rule meets
+    # which constant decides (the closed forms of sums over ranges hand their bounds to sympy)
+    if not thorough:
+        have = {c["text"] for c in cases}
+        for e in hostile.ADVERSARIAL_CONSTANTS[:8]:
+            for t in hostile.CONDITION_TEMPLATES:
+                if t.replace("{E}", e) not in have:
+                    add(f"const:{e}:{hostile.CONDITION_TEMPLATES.index(t)}:all", t.replace("{E}", e), {}, kind="const")
     for i, d in enumerate(hostile.DEGENERATE):
         for o in (OPTION_VECTORS[:4] if thorough else [OPTION_VECTORS[i % 4]]):
             add(f"degenerate:{i}:{sorted(o)}", d, o, kind="degenerate")
